@@ -18,7 +18,7 @@ RULE = ('random literal values (scalars, str/bytes with prefixes/escapes/adjacen
         'ast.literal_eval + typed equality for in-grammar text, SyntaxError|TokenError + no binding for near-misses. '
         'distinct = distinct (entry path, classifier class, set of layout features | mutation operator, value-kind set)')
 TIERS = {
-    'quick': {'workers': 8, 'cases': 2500, 'timeout': 600},
+    'quick': {'workers': 8, 'cases': 10000, 'timeout': 600},
     'thorough': {'workers': 16, 'cases': 60000, 'timeout': 3000},
 }
 ENTRIES = ['parse_value', 'flat', 'scoped', 'block', 'macro', 'flat-noeol']
